@@ -2213,13 +2213,37 @@ impl Compiler {
         for (i, branch) in branches.into_iter().enumerate() {
             let span = branch.span.clone();
             let SigNode { node, sig } = self.word_sig(branch)?;
-            let is_flex = node
+            // Look through calls to named functions, so that naming a
+            // branch does not change whether it is known to throw
+            fn flatten<'a>(
+                node: &'a Node,
+                asm: &'a Assembly,
+                visited: &mut Vec<usize>,
+                flat: &mut Vec<&'a Node>,
+            ) {
+                for node in node.iter() {
+                    match node {
+                        Node::Call(f, _)
+                            if !visited.contains(&f.index)
+                                && visited.len() < 16
+                                && flat.len() < 1000 =>
+                        {
+                            visited.push(f.index);
+                            flatten(&asm[f], asm, visited, flat);
+                            visited.pop();
+                        }
+                        node => flat.push(node),
+                    }
+                }
+            }
+            let mut flat = Vec::new();
+            flatten(&node, &self.asm, &mut Vec::new(), &mut flat);
+            let is_flex = flat
                 .iter()
                 .rposition(|node| matches!(node, Node::Prim(Primitive::Assert, _)))
                 .is_some_and(|end| {
                     (0..end).rev().any(|start| {
-                        let sub = node.slice(start..end);
-                        match sub.as_slice() {
+                        match &flat[start..end] {
                             [Node::Push(val), Node::Prim(Primitive::Dup, _)]
                             | [Node::Push(val), Node::Push(..)]
                                 if val != &Value::from(1) =>
